@@ -1249,3 +1249,6 @@ m('B1-walk-keywords-listed-in-the-other-order', 'C05', 'B1', '_C.PyTreeSpec.walk
              py::pos_only(),
              py::arg("f_leaf") = std::nullopt,
              py::arg("f_node") = std::nullopt)""")
+m('I4-entries-bound-admits-one-past-the-end', 'C16', 'I4', 'PyTreeSpec::FlattenIntoWithPathImpl/TupleGetItem[counter]', 'src/treespec/flatten.cpp',
+  """                        if (num_children >= node.arity) [[unlikely]] {""",
+  """                        if (num_children > node.arity) [[unlikely]] {""")
